@@ -54,6 +54,71 @@ def compare_views(run, label, a, b):
                        required='identical lexer/LALR tables', replayed=True)
 
 
+def partial_first_build(run, es5, optimize, pdir, fresh):
+    """first-build helper with one generated module missing and the other left over from older sources"""
+    lexfile = os.path.join(pdir, es5.lextab.rsplit('.', 1)[1] + '.py')
+    yaccfile = os.path.join(pdir, es5.yacctab.rsplit('.', 1)[1] + '.py')
+    for stale, missing, edit in ((lexfile, yaccfile, lambda t: t.replace('0[0-7]+', '0[0-6]+')),
+                                 (yaccfile, lexfile, lambda t: re.sub(r"_lr_method = 'LALR'", "_lr_method = 'LALR'\n_vf_tampered = True", t))):
+        label = 'stale %s, missing %s' % (os.path.basename(stale).split('_')[0], os.path.basename(missing).split('_')[0])
+        with open(stale) as fd:
+            text = fd.read()
+        with open(stale, 'w') as fd:
+            fd.write(edit(text))
+        os.unlink(missing)
+        for f in glob.glob(os.path.join(pdir, '__pycache__', '*tab_*')):
+            os.unlink(f)
+        for m in (es5.lextab, es5.yacctab):
+            sys.modules.pop(m, None)
+        importlib.invalidate_caches()
+        try:
+            optimize.optimize_build('calmjs.parse.parsers.es5')
+            err = None
+        except Exception as e:
+            err = e
+        name = 'tables.first_build[%s]' % label
+        if err is not None:
+            run.failed(name, 'E2/tables', 'raised', dict(error=repr(err)), observed=repr(err), required='the first-build helper regenerates the modules', replayed=True)
+            es5.Parser()
+            continue
+        for m in (es5.lextab, es5.yacctab):
+            sys.modules.pop(m, None)
+        importlib.invalidate_caches()
+        regen = es5.Parser()
+        compare_views(run, 'first build (%s) vs in-memory' % label, dict(lexer_view(regen), **parser_view(regen)),
+                      dict(lexer_view(fresh), **parser_view(fresh)))
+        run.discharged(name, 'E2/tables', 'exec', 0.0)
+
+
+def c_locale_rebuild(run, es5, pdir, fresh):
+    """the maintenance entry point (python -m calmjs.parse.parsers.optimize) under a non-UTF-8 locale"""
+    import subprocess
+    env = dict(os.environ, LC_ALL='C', LANG='C', PYTHONUTF8='0', PYTHONCOERCECLOCALE='0', PYTHONPATH=scratch.scratch_src())
+    env.pop('PYTHONIOENCODING', None)
+    code = 'from calmjs.parse.parsers.optimize import reoptimize_all; reoptimize_all(True)'
+    p = subprocess.run([sys.executable, '-c', code], env=env, stdout=subprocess.PIPE, stderr=subprocess.PIPE, universal_newlines=True)
+    for m in (es5.lextab, es5.yacctab):
+        sys.modules.pop(m, None)
+    importlib.invalidate_caches()
+    name = 'tables.reoptimize_all[C locale]'
+    try:
+        if p.returncode != 0:
+            raise RuntimeError('helper exited %d: %s' % (p.returncode, p.stderr.strip().splitlines()[-1:] or ''))
+        regen = es5.Parser()
+        compare_views(run, 'rebuilt under LC_ALL=C vs in-memory', dict(lexer_view(regen), **parser_view(regen)),
+                      dict(lexer_view(fresh), **parser_view(fresh)))
+        run.discharged(name, 'E2/tables', 'exec', 0.0)
+    except Exception as e:
+        run.failed(name, 'E2/tables', 'LC_ALL=C', dict(error=repr(e)[:300]), observed='after python -m ...optimize under LC_ALL=C: %r' % (e,),
+                   required='the helper writes the modules as UTF-8 whatever the locale, and they drive identical parses', replayed=True)
+        for f_ in glob.glob(os.path.join(pdir, '*tab_*.py')):
+            os.unlink(f_)
+        for m in (es5.lextab, es5.yacctab):
+            sys.modules.pop(m, None)
+        importlib.invalidate_caches()
+        es5.Parser()
+
+
 def main(run, tier):
     es5 = importlib.import_module('calmjs.parse.parsers.es5')
     optimize = importlib.import_module('calmjs.parse.parsers.optimize')
@@ -125,6 +190,11 @@ def main(run, tier):
     import contracts.parser_init as cp
     cs, lemmas, env = cp.build(es5)
     verify_functions(run, cs, {}, {}, tier=tier)
+    import contracts.optimize as co
+    ocs, _, _ = co.build(optimize)
+    verify_functions(run, ocs + co.build_all(optimize), {}, {}, tier=tier)
+    partial_first_build(run, es5, optimize, pdir, fresh)
+    c_locale_rebuild(run, es5, pdir, fresh)
     # ---- bounded: differential parse under the three configurations
     from ..tables import core
     g = core.G()
